@@ -16,62 +16,63 @@ import (
 
 // Obligation is one proof obligation (possibly generated on several paths).
 type Obligation struct {
-	Name  string
-	Hyps  []*Term
-	Goal  *Term
-	Kind  string // ensures, pre, safe, inv, frame, lemma, vacuity, cover
-	Func  string
-	Note  string
+	Name   string
+	Hyps   []*Term
+	Goal   *Term
+	Kind   string // ensures, pre, safe, inv, frame, lemma, vacuity, cover
+	Func   string
+	Note   string
 	Expect string // "unsat" (default) or "sat" (vacuity / cover checks)
 }
 
 // frame is one activation (the verified function or an inlined callee).
 type frame struct {
-	fc       *fctx
-	pkg      *packages.Package
-	info     *types.Info
-	fn       *types.Func
-	sig      *types.Signature
-	resVars  []*types.Var
-	prefix   string // obligation name prefix for inlined frames
-	ords     map[ast.Node]int
-	loopOrd  map[ast.Node]int
-	litOrd   map[*ast.FuncLit]int
-	callOrd  map[*ast.CallExpr]int
-	deferBase int
-	contract *FuncContract // contract whose invariants apply to loops of this frame (nil for inlined)
-	depth    int
-	recvAliasPrefix string // loop scan: heap class prefix of an embedded-struct receiver
-	recvAliasType   types.Type
+	fc               *fctx
+	pkg              *packages.Package
+	info             *types.Info
+	fn               *types.Func
+	sig              *types.Signature
+	resVars          []*types.Var
+	prefix           string // obligation name prefix for inlined frames
+	ords             map[ast.Node]int
+	loopOrd          map[ast.Node]int
+	litOrd           map[*ast.FuncLit]int
+	viaApplyContract bool
+	callOrd          map[*ast.CallExpr]int
+	deferBase        int
+	contract         *FuncContract // contract whose invariants apply to loops of this frame (nil for inlined)
+	depth            int
+	recvAliasPrefix  string // loop scan: heap class prefix of an embedded-struct receiver
+	recvAliasType    types.Type
 }
 
 // fctx is the verification context of one function under contract.
 type fctx struct {
-	reg      *Registry
-	name     string
-	obls     []*Obligation
-	entry    *State
-	contract *FuncContract
-	root     *frame
-	paramVals map[string]*Value // contract param name -> entry value
-	resNames  []string
-	inlineStack []string
-	paths    int
-	modLocs  []modLoc // evaluated modifies clause (entry state)
-	lockSnap map[string]*Term
-	lockedOld *State
-	notes    []string
-	ghostCalls map[string]int
-	ovfCount int
+	reg               *Registry
+	name              string
+	obls              []*Obligation
+	entry             *State
+	contract          *FuncContract
+	root              *frame
+	paramVals         map[string]*Value // contract param name -> entry value
+	resNames          []string
+	inlineStack       []string
+	paths             int
+	modLocs           []modLoc // evaluated modifies clause (entry state)
+	lockSnap          map[string]*Term
+	lockedOld         *State
+	notes             []string
+	ghostCalls        map[string]int
+	ovfCount          int
 	ifaceFactsPending bool
-	capturedEntry map[string]*Value // closure units: entry values of captured locals (visible in old())
-	lastPos string // source position of the statement being executed (for messages only)
+	capturedEntry     map[string]*Value // closure units: entry values of captured locals (visible in old())
+	lastPos           string            // source position of the statement being executed (for messages only)
 }
 
 type modLoc struct {
-	class string // leaf class
-	ref   *Term  // nil => whole class / global
-	all   bool
+	class   string // leaf class
+	ref     *Term  // nil => whole class / global
+	all     bool
 	elemsOf *Term // for elems(s): backing array ref
 }
 
